@@ -128,6 +128,9 @@ func vKnownAbsenceFindings(r *Requirement, specs []vSpec) (f1, f2 bool) {
 
 func VerifC12_Compatible() {
 	u := vUniverse()
+	if len(u) > 2 {
+		u = u[:2] // the thorough tier widens the conjunctions (b.conj), not the universe, in this harness
+	}
 	// mode 0: every operator combination on the custom key, well-known key unused;
 	// mode 1: at most one expression per side on the custom key, every combination on the well-known key
 	mode := verifrt.Choice("mode", 0, 1)
